@@ -205,6 +205,16 @@ def base_catalog():
     Outer = E("Outer", L8, V("A", U32), V("B", U8, E("Inner", L8, V("X"), V("Y", VecT(U8, L16)), sized=False)), sized=False)
     SS = S("SS", "h", U16, "inner", S1, sized=False)
     c += [S1, S2, S3, S4, S5, S6, S7, DS, PS, E1, E2, E3, E4, DE_, PE, Outer, SS]
+    # field lists with padding in every position, sized-only unsized enums, variants smaller than the alignment
+    E5 = E("E5", L8, V("Empty"), V("Short", U16), V("Wide", U32), sized=False)
+    E6 = E("E6", L16, V("A", U8), V("B", U64), V("C", U8, U8, U8), sized=False)
+    E7 = E("E7", L8, V("A"), V("Rec", "kind", U8, "seq", U16, "body", VecT(U8, L8)), V("Big", "a", U8, "b", U32, "c", U8, "d", VecT(U16, L16)), sized=False)
+    E8 = E("E8", L8, V("P", U8, U64, U8, StrT(L8)), V("Q", U16, U8, U32, U8), V("R", BOOL, U16, BOOL, FlexT(VecT(U8, L8), L8)), sized=False)
+    E9 = E("E9", L32, V("A", U8, U16), V("B", U16, U8, U16, U8, VecT(U32, L8)), sized=False)
+    S8 = S("S8", "a", U8, "b", U16, "c", U8, "d", U32, "v", VecT(U8, L8), sized=False)
+    S9 = S("S9", "a", U16, "b", U8, "c", U64, "d", U8, "s", StrT(L16), sized=False)
+    S10 = S("S10", "a", U8, "e", E7, sized=False)
+    c += [E5, E6, E7, E8, E9, S8, S9, S10, FlexT(E7, L16), FlexT(S8, L8), FlexT(E5, L8)]
     # FlexVec
     c += [FlexT(U8, L8), FlexT(U32, L8), FlexT(U32, L16), FlexT(U64, L16), FlexT(BOOL, L8), FlexT(WithBool, L16), FlexT(SE8, L8),
           FlexT(VecT(U8, L8), L8), FlexT(VecT(U16, L16), L16), FlexT(VecT(I32, L16), L16), FlexT(VecT(U8, L8), L32), FlexT(StrT(L8), L8),
@@ -214,6 +224,8 @@ def base_catalog():
     F2 = E("F2", L8, V("A", U8), V("B", FlexT(VecT(U8, L8), L8)), sized=False)
     F3 = S("F3", "n", U8, "f", FlexT(StrT(L8), L8), sized=False, default=True)
     c += [F1, F2, F3]
+    # a fixed set of generated definitions widens the shapes (the thorough tier adds seeded ones on top)
+    c += random_catalog(20260926, 40, prefix="G")
     return c
 
 # ----------------------------------------------------------------------------------------------
